@@ -33,7 +33,7 @@ def gen_case(rng):
     return {
         "files": {"/".join(k): v.decode() for k, v in files.items()},
         "lazy": {"/".join(k): {"/".join(r): v.decode() for r, v in s.items()} for k, s in lazy.items()},
-        "explicit_dirs": explicit_dirs, "sqlite": rng.random() < 0.4,
+        "explicit_dirs": explicit_dirs, "sqlite": rng.random() < 0.4, "existence_index": rng.random() < 0.3,
     }
 
 
@@ -51,7 +51,11 @@ def build_indexes(case, root):
 
     def new(name):
         idx = DataIndex.open(os.path.join(root, name + ".db")) if case["sqlite"] else DataIndex()
-        idx.storage_map.add_cache(ObjectStorage((), odb))
+        if case.get("existence_index"):
+            # the storage carries the optional existence index (as remotes do); it has never been refreshed
+            idx.storage_map.add_cache(ObjectStorage((), odb, index=DataIndex()))
+        else:
+            idx.storage_map.add_cache(ObjectStorage((), odb))
         return idx
 
     L, E = new("lazy"), new("expanded")
